@@ -1459,13 +1459,22 @@ func (p *scionPacketProcessor) updateNonConsDirIngressSegID() disposition {
 	return pForward
 }
 
+// scionPathOffset is the offset of the SCION path (its meta header) inside the path header: an
+// EPIC path carries its own fields (PktID, PHVF, LHVF) in front of the SCION path.
+func (p *scionPacketProcessor) scionPathOffset() int {
+	if p.scionLayer.PathType == epic.PathType {
+		return epic.MetadataLen
+	}
+	return 0
+}
+
 func (p *scionPacketProcessor) currentInfoPointer() uint16 {
-	return uint16(slayers.CmnHdrLen + p.scionLayer.AddrHdrLen() +
+	return uint16(slayers.CmnHdrLen + p.scionLayer.AddrHdrLen() + p.scionPathOffset() +
 		scion.MetaLen + path.InfoLen*int(p.path.PathMeta.CurrINF))
 }
 
 func (p *scionPacketProcessor) currentHopPointer() uint16 {
-	return uint16(slayers.CmnHdrLen + p.scionLayer.AddrHdrLen() +
+	return uint16(slayers.CmnHdrLen + p.scionLayer.AddrHdrLen() + p.scionPathOffset() +
 		scion.MetaLen + path.InfoLen*p.path.NumINF + path.HopLen*int(p.path.PathMeta.CurrHF))
 }
 
